@@ -3,7 +3,7 @@
    (|a-b| <= atol + rtol(|a|+|b|)).  `failing` returns 2*id for a disagreement and 2*id+1 for a case the model
    flags as ill-conditioned (a numerator that is a cancelling sum next to the clipping threshold): skipped, counted. *)
 From Coq Require Import List Arith ZArith QArith Qabs Qround Bool.
-From TLV Require Import Base.Shape Base.PyList Base.Tensor Base.Ops Model.Nonneg Model.NonnegSign Model.NonnegFlow Model.NonnegOptions Model.NonnegP2Ls Model.NonnegCcpSpec Corr.Common.
+From TLV Require Import Base.Shape Base.PyList Base.Tensor Base.Ops Model.Nonneg Model.NonnegSign Model.NonnegFlow Model.NonnegOptions Model.NonnegP2Ls Model.NonnegCcpSpec Model.NonnegMask Corr.Common.
 Import ListNotations.
 
 Definition qmat := list (list Q).
@@ -238,6 +238,12 @@ Inductive op :=
 | OMuCpE (eps : Q) (T : tensor Q) (w : list Q) (Fs : list qmat) (nm : bool) (fixed : option (list nat)) (n : nat)
 | OHalsCpE (T : tensor Q) (w : list Q) (Fs : list qmat) (fixed : option (list nat)) (nn : nn_opt) (sp : @sp_opt Q) (nm : bool) (n : nat) (tol : Q)
 | OTkHalsE (T core : tensor Q) (Fs : list qmat) (fixed : option (list nat)) (sp : @sp_opt Q) (csp : Q) (nm : bool) (feps lr : Q) (betas : list Q) (n : nat) (tol : Q)
+(* round 8: non_negative_parafac(tensor, init=(w, Fs), mask=<0/1 tensor>, tol=0, ...): the masked branch (Model/NonnegMask.v cp_mu_num_mask), raw fixed_modes *)
+| OMuCpMask (eps : Q) (T mask : tensor Q) (w : list Q) (Fs : list qmat) (nm : bool) (fixed : option (list nat)) (n : nat)
+(* round 8: hals_nnls(UtM, UtU, V=None, n_iter_max=n, tol=0, ...): the cold start from the recorded answer S of tl.solve(UtU, UtM) *)
+| OHalsCold (eps : Q) (sp rg : option Q) (UtM UtU S0 : qmat) (n : nat)
+(* round 8: hals_nnls(UtM, UtU, V, n_iter_max=n, tol=0, nonzero_rows=True, ...) on inputs on which binary floating point is exact (epsm = tl.eps(float64)) *)
+| OHalsNzr (epsm eps : Q) (sp rg : option Q) (UtM UtU V : qmat) (n : nat)
 (* corr:C10-static -- the body of an entry point, regenerated from the current Python source by the ast translator (harness/props/C10_sign.py):
    the sign analysis of Model/NonnegSign.v must establish that the returned decomposition is entrywise >= 0 (verdict 0) *)
 | OSign (prog : list stmt) (a0 : aenv) (ret : sx)
@@ -263,6 +269,22 @@ Definition mu_cond (eps : Q) (T : tensor Q) (nm : bool) (modes : list nat) (n : 
                   (b && ok, cp_mu_mode Qops qnrm2 eps (cp_mu_num Qops T) (cp_mu_den Qops) nm (last modes 0%nat) st mode))
                modes bs) (true, st).
 
+(* the same for the masked algorithm: the tensor of every mode update is the imputed one (a function of the current state) *)
+Definition mu_cond_mask (eps : Q) (T mask : tensor Q) (nm : bool) (modes : list nat) (n : nat) (st : @cp_state Q) : bool * @cp_state Q :=
+  iter_n n (fun bs =>
+     fold_left (fun (bs : bool * @cp_state Q) mode =>
+                  let '(b, st) := bs in
+                  let ok := well_cond eps (cp_mu_num_mask Qops T mask st mode)
+                                      (cp_mu_num Qops (absT (impute Qops T mask st)) (map Qabs (fst st), map (abs_mat Qops) (snd st)) mode) in
+                  (b && ok, cp_mu_mode Qops qnrm2 eps (cp_mu_num_mask Qops T mask) (cp_mu_den Qops) nm (last modes 0%nat) st mode))
+               modes bs) (true, st).
+Definition run_mucp_mask (eps : Q) (T mask : tensor Q) (w : list Q) (Fs : list qmat) (nm : bool) (modes : list nat) (n : nat) : out :=
+      let init := initialize_cp_user_norm Qops qnrm2 w Fs nm in
+      let '(ok, _) := mu_cond_mask eps T mask nm modes n init in
+      if ok then
+        let r := non_negative_parafac Qops qnrm2 eps (fun _ => cp_mu_num_mask Qops T mask) (fun _ => cp_mu_den Qops) (fun _ _ => false) nm modes n init in
+        OutMats (fst r) (snd r)
+      else OutSkip.
 Definition run_mucp (eps : Q) (T : tensor Q) (w : list Q) (Fs : list qmat) (nm : bool) (modes : list nat) (n : nat) : out :=
       let init := initialize_cp_user_norm Qops qnrm2 w Fs nm in
       let '(ok, _) := mu_cond eps T nm modes n init in
@@ -330,6 +352,10 @@ Definition run (o : op) : out :=
       let a := tkhals_entry_fx T core Fs fixed sp csp nm feps lr betas n (tol * (999999 # 1000000)) in
       let b := tkhals_entry_fx T core Fs fixed sp csp nm feps lr betas n (tol * (1000001 # 1000000)) in
       if pair_close a b then OutMats (fst a) (snd a) else OutSkip
+  | OMuCpMask eps T mask w Fs nm fixed n =>
+      run_mucp_mask eps T mask w Fs nm (modes_of (length Fs) (unfix_last (length Fs) (parse_fixed fixed))) n
+  | OHalsCold eps sp rg UtM UtU S0 n => OutMats [] [hals_nnls Qops eps sp rg UtM UtU (hals_cold_start Qops UtM UtU S0) n]
+  | OHalsNzr epsm eps sp rg UtM UtU V n => OutMats [] [hals_nnls_nzr Qops epsm eps sp rg UtM UtU V n]
   | OSign prog a0 ret => OutMats [inject_Z (Z.of_nat (sign_verdict prog a0 ret))] []
   | OFlow c a0 => OutMats [inject_Z (Z.of_nat (flow_verdict c a0))] []
   end.
